@@ -28,6 +28,9 @@
 //	          `passes: n` with `limit: 0`;  an E item's scheme field may carry the suffix c (raw only): the body is written with
 //	          Transfer-Encoding: chunked instead of a Content-Length
 //
+//	preload = <0|1>[:<file syntax flags>]  s / S: "[k:v]" / "[  k :   v ]" instead of "[k: v]" (in-file and configured header lines),
+//	          b: blank and whitespace-only lines around the items, n: no newline at the end of the file
+//
 //	tr <salt>   -> one token <Struct>.<Field>:<configured>:<built> per field of phttp.TransportConfig and phttp.DialerConfig (see runTransport)
 //	  item = H k v                                   an in-file "[k: v]" line (uri, uripost only)
 //	       | E method uri scheme urlhost tag body nh {k v}*nh
@@ -86,40 +89,43 @@ const decoyToken = "@decoy"
 type kv struct{ k, v string }
 
 type item struct {
-	isHdr  bool
-	k, v   string // header item
-	method string
-	uri    string
-	scheme string // "-", "h", "s"
-	host   string
-	tag    string
-	body   []byte
-	hdrs   []kv
+	isHdr   bool
+	k, v    string // header item
+	method  string
+	uri     string
+	scheme  string // "-", "h", "s"
+	host    string
+	tag     string
+	body    []byte
+	hdrs    []kv
 	chunked bool // raw only: the entry's body is written with Transfer-Encoding: chunked instead of a Content-Length
 }
 
 type wcase struct {
-	format  string
-	ssl     bool
-	ka      bool
-	inst    int
-	tgt     string
-	pools   int
-	late    bool
-	pause   int
-	passes  int
-	rdelay  int
-	rdv     bool
-	scBlock bool // the gun config has a shared-client block
-	scOn    bool
-	scNum   int
-	preload bool
-	rstatus int
-	rsize   int
-	cfg     []kv
-	items   []item
-	opts    gunOpts // gun options under which Shoot touches the request / response (opts.go)
-	byPasses bool   // the file is delivered `passes` times through the provider option `passes` (limit 0) instead of `limit`
+	format   string
+	ssl      bool
+	ka       bool
+	inst     int
+	tgt      string
+	pools    int
+	late     bool
+	pause    int
+	passes   int
+	rdelay   int
+	rdv      bool
+	scBlock  bool // the gun config has a shared-client block
+	scOn     bool
+	scNum    int
+	preload  bool
+	rstatus  int
+	rsize    int
+	cfg      []kv
+	items    []item
+	hstyle   int     // how "[k: v]" lines (in-file and configured) are written: 0 "[k: v]", 1 "[k:v]", 2 "[  k  :   v ]"
+	blanks   bool    // blank and whitespace-only lines before, between and after the items of the file
+	noEOL    bool    // the file does not end with a newline
+	opts     gunOpts // gun options under which Shoot touches the request / response (opts.go)
+	byPasses bool    // the file is delivered `passes` times through the provider option `passes` (limit 0) instead of `limit`
 }
 
 func parseCase(line string) (*wcase, error) {
@@ -171,7 +177,24 @@ func parseCase(line string) (*wcase, error) {
 			}
 		}
 		c.tgt = next()
-		c.preload = next() == "1"
+		plf := strings.SplitN(next(), ":", 2)
+		c.preload = plf[0] == "1"
+		if len(plf) > 1 { // file syntax variants
+			for _, ch := range plf[1] {
+				switch ch {
+				case 's':
+					c.hstyle = 1
+				case 'S':
+					c.hstyle = 2
+				case 'b':
+					c.blanks = true
+				case 'n':
+					c.noEOL = true
+				default:
+					panic("bad file syntax flag")
+				}
+			}
+		}
 		rf := strings.Split(next(), ":")
 		c.rstatus, _ = strconv.Atoi(rf[0])
 		if len(rf) > 1 {
@@ -252,18 +275,44 @@ func (it *item) url(decoy string) string {
 	return it.uri
 }
 
+// hdrLine: one "[key: value]" line in the case's style (DecodeHeader trims blanks around the key and around the value)
+func hdrLine(style int, k, v string) string {
+	switch style {
+	case 1:
+		return "[" + k + ":" + v + "]"
+	case 2:
+		return "[  " + k + " \t:   " + v + " ]"
+	}
+	return "[" + k + ": " + v + "]"
+}
+
 func renderFile(c *wcase, decoy string) []byte {
+	out := renderItems(c, decoy)
+	if c.noEOL {
+		out = bytes.TrimSuffix(out, []byte("\n"))
+	}
+	return out
+}
+
+func renderItems(c *wcase, decoy string) []byte {
 	if c.format == "jsonarr" {
 		c2 := *c
 		c2.format = "jsonline"
-		lines := strings.Split(strings.TrimRight(string(renderFile(&c2, decoy)), "\n"), "\n")
+		c2.blanks = false
+		lines := strings.Split(strings.TrimRight(string(renderItems(&c2, decoy)), "\n"), "\n")
 		return []byte("[" + strings.Join(lines, ",\n") + "]\n")
 	}
 	var b strings.Builder
+	if c.blanks {
+		b.WriteString("\n")
+	}
 	for i := range c.items {
 		it := &c.items[i]
+		if c.blanks && i > 0 {
+			b.WriteString([]string{"\n", "  \t\n", "\n\n"}[i%3])
+		}
 		if it.isHdr {
-			fmt.Fprintf(&b, "[%s: %s]\n", it.k, it.v)
+			b.WriteString(hdrLine(c.hstyle, it.k, it.v) + "\n")
 			continue
 		}
 		switch c.format {
@@ -454,7 +503,7 @@ func dropAuto(k string, vals []string, keepAlive bool) bool {
 	case "Content-Length":
 		return true
 	case "User-Agent":
-		return len(vals) == 1 && vals[0] == "Go-http-client/1.1"
+		return len(vals) == 1 && (vals[0] == "Go-http-client/1.1" || vals[0] == "Go-http-client/2.0")
 	case "Connection":
 		return !keepAlive && len(vals) == 1 && vals[0] == "close"
 	}
@@ -611,7 +660,7 @@ func runCaseOnce(line string) string {
 	total := nEntries * c.passes
 	var hdrs []any
 	for _, h := range c.cfg {
-		hdrs = append(hdrs, fmt.Sprintf("[%s: %s]", h.k, h.v))
+		hdrs = append(hdrs, hdrLine(c.hstyle, h.k, h.v))
 	}
 
 	if c.rdv {
@@ -632,7 +681,9 @@ func runCaseOnce(line string) string {
 			}
 		}
 		srv.Config.ErrorLog = log.New(io.Discard, "", 0)
-		if c.ssl {
+		if c.ssl && c.opts.h2 {
+			srv.EnableHTTP2 = true // the http2 gun panics on a target that does not speak h2
+		} else if c.ssl {
 			srv.TLS = &tls.Config{NextProtos: []string{"http/1.1"}}
 		}
 		_, ports[k], _ = net.SplitHostPort(srv.Listener.Addr().String())
@@ -700,10 +751,10 @@ func runCaseOnce(line string) string {
 		}
 		c.opts.apply(gun)
 		pools = append(pools, map[string]any{
-			"id":     fmt.Sprintf("p%d", k),
-			"ammo":   ammo,
-			"result": map[string]any{"type": "discard"},
-			"gun":    gun,
+			"id":               fmt.Sprintf("p%d", k),
+			"ammo":             ammo,
+			"result":           map[string]any{"type": "discard"},
+			"gun":              gun,
 			"rps-per-instance": false,
 			"rps":              rps,
 			"startup":          []any{map[string]any{"type": "once", "times": c.inst}},
@@ -778,7 +829,7 @@ func runCaseOnce(line string) string {
 	// connection, which for a host-name target includes the one reachability probe of PreResolveTargetAddr.
 	// (one per pool; none when the target was down at configuration time)
 	probe := 0
-	if c.tgt == "name" && !c.late {
+	if c.tgt == "name" && !c.late && !c.opts.noDNSCache {
 		probe = c.pools
 	}
 	run := "ok"
